@@ -208,6 +208,36 @@ Definition base_seek (bk : backend) (r : range) (b : kvs) : kvs :=
   | BLevel => level_seek r b
   end.
 
+(* ------------------------------------------------------------------ SeekGC *)
+
+(* the callback keepCont of SeekGC as data: keep k v, and "continue" until [stop] pairs have been visited
+   (stop = 0: never stops) *)
+Definition gc_visit (stop : N) (l : kvs) : kvs := if stop =? 0 then l else firstn (N.to_nat stop) l.
+Definition gc_deleted (keep : key -> val -> bool) (stop : N) (l : kvs) : list key :=
+  map fst (filter (fun kv => negb (keep (fst kv) (snd kv))) (gc_visit stop l)).
+Definition remove_all {A} (ks : list key) (m : list (key * A)) : list (key * A) :=
+  fold_left (fun acc k => remove k acc) ks m.
+
+(* MemoryStore.SeekGC (write lock; seek collects the list first, then delete(map, k) for every rejected pair),
+   BoltDBStore.SeekGC (one Update transaction, c.Delete() at the cursor), LevelDBStore.SeekGC (one transaction,
+   tx.Delete): visit the pairs of the range in seek order, delete the rejected ones *)
+Definition base_seekgc (bk : backend) (keep : key -> val -> bool) (stop : N) (r : range) (b : kvs) : kvs :=
+  remove_all (gc_deleted keep stop (base_seek bk r b)) b.
+
+(* the live pairs of a cache map (MemoryStore.seek skips nil values) *)
+Definition live_of (m : lmap) : kvs :=
+  flat_map (fun kv => match snd kv with Some v => [(fst kv, v)] | None => [] end) m.
+
+(* MemCachedStore.SeekGC is the promoted MemoryStore.SeekGC on the layer's OWN maps ("only works with the current
+   Store, it won't go down to layers below"): rejected live entries are dropped from the map (not tombstoned) *)
+Definition layer_seekgc (keep : key -> val -> bool) (stop : N) (r : range) (m : lmap) : lmap :=
+  remove_all (gc_deleted keep stop (mem_seek r (live_of m))) m.
+
+(* keep/continue functions the harness can name: keep iff (first value byte, 0 if none) mod gmod <> gres *)
+Record gcfun := { gmod : N; gres : N; gstop : N }.
+Definition gkeep (g : gcfun) (k : key) (v : val) : bool :=
+  negb ((match v with b :: _ => b | [] => 0 end) mod (N.max 1 (gmod g)) =? gres g).
+
 (* ------------------------------------------------------------------ the stack *)
 
 Record layer := { lpriv : bool; lm : lmap }.
@@ -325,7 +355,9 @@ Inductive op :=
 | OPersist (i : N)               (* Persist of the layer i below the top; a private layer only when it is the top
                                     (it is closed by Persist and leaves the stack) *)
 | OPersistPrivate                (* below.PersistPrivate(top) for a private top; the top leaves the stack *)
-| ODrop.                         (* forget the top layer and its writes *)
+| ODrop                          (* forget the top layer and its writes *)
+| OGcBase (r : range) (g : gcfun)   (* base.SeekGC, as Blockchain does (cache-less DB operation) *)
+| OGcTop (r : range) (g : gcfun).   (* top.SeekGC: the cache layer's own maps only *)
 
 Definition set_stack (s : stack) (lb : list layer * kvs) : stack :=
   {| layers := fst lb; bkind := bkind s; base := snd lb |}.
@@ -345,6 +377,8 @@ Definition step (s : stack) (o : op) : stack :=
   | OPersistPrivate, L :: L2 :: t =>
       if lpriv L then set_stack s (with_lm L2 (copy_into (lm L) (lm L2)) :: t, base s) else s
   | ODrop, _ :: (L2 :: t) => set_stack s (L2 :: t, base s)
+  | OGcBase r g, ls => set_stack s (ls, base_seekgc (bkind s) (gkeep g) (gstop g) r (base s))
+  | OGcTop r g, L :: t => set_stack s (with_lm L (layer_seekgc (gkeep g) (gstop g) r (lm L)) :: t, base s)
   | _, _ => s
   end.
 
